@@ -19,7 +19,7 @@ namespace LokiModel.C12
 theorem C12_inv_init : Inv St.init :=
   ⟨fun _ h => by simp [St.init] at h, fun i t h => by simp [St.init] at h⟩
 
-/-- **one step**: for every state satisfying the invariant and every one of the 21 operations, the abstraction commutes
+/-- **one step**: for every state satisfying the invariant and every one of the 23 operations, the abstraction commutes
 with the step, the value returned by the real operation (value, `None`, `KeyError`, `ValueError`, membership, declaring
 scope) is the one the specification mapping returns, and the invariant of reachable states is kept -/
 theorem C12_step (s : St) (op : Op) (hi : Inv s) :
@@ -34,12 +34,14 @@ theorem C12_step (s : St) (op : Op) (hi : Inv s) :
     | setdefault i k h => exact ref_setdefault s i k h hi
     | update i kvs => exact ref_update s i kvs hi
     | get i k => exact ref_get s i k hi
+    | getd i k d => exact ref_getd s i k d hi
     | getitem i k => exact ref_getitem s i k hi
     | lookup i k r => exact ref_lookup s i k r hi
     | contains i k => exact ref_contains s i k hi
     | del i k => exact ref_del s i k hi
     | pop i k => exact ref_pop s i k hi
     | popd i k => exact ref_popd s i k hi
+    | popdv i k d => exact ref_popdv s i k d hi
     | clone i pk => exact ref_clone s i pk hi
     | setparent i p => exact ref_setparent s i p hi
     | declare i k c f => exact ref_declare s i k c f hi
@@ -86,14 +88,38 @@ theorem C12_del_agrees_with_contains (s : St) (i : Nat) (k : Name) (hi : Inv s) 
   | none => simp
   | some t => cases hm : t.map (fold k) <;> simp [hm]
 
+/-- an explicit default is returned ONLY when the name is not declared: if `k in t` (any spelling) then `t.get(k, d)` and
+`t.pop(k, d)` return the stored value, never `d` -/
+theorem C12_default_only_when_absent (s : St) (i : Nat) (k : Name) (d : Nat) (hi : Inv s)
+    (hin : (step s (.contains i k)).2 = .bool true) :
+    (step s (.getd i k d)).2 ≠ .dflt d ∧ (step s (.popdv i k d)).2 ≠ .dflt d ∧
+    (step s (.getd i k d)).2 = (step s (.getitem i k)).2 ∧ (step s (.popdv i k d)).2 = (step s (.pop i k)).2 := by
+  rw [(ref_contains s i k hi).out] at hin
+  rw [(ref_getd s i k d hi).out, (ref_popdv s i k d hi).out, (ref_getitem s i k hi).out, (ref_pop s i k hi).out]
+  simp only [specStep, abs_get] at hin ⊢
+  cases ht : s.tabs[i]? with
+  | none => simp [ht] at hin
+  | some t =>
+    simp only [ht, Option.map_some] at hin ⊢
+    cases hm : (absTab t).map (fold k) with
+    | none => simp [hm] at hin
+    | some v => simp [aRet]
+
+/-- the same for both dictionaries, falsy values included: `d.get(k, dv)` / `d.pop(k, dv)` return `dv` only if `k not in d` -/
+theorem C12_dict_default_only_when_absent (kind : DKind) (d : DSt) (k : Name) (dv v : Nat)
+    (hin : alookup (lower k) d = some v) :
+    (dstep kind d (.getd k dv)).2 = .val v ∧ (dstep kind d (.popdv k dv)).2 = .val v ∧ (dstep kind d (.get k)).2 = .val v := by
+  simp [dstep, hin]
+
 /-- only the folded name matters: two spellings of the same name are interchangeable in every keyed operation -/
 theorem C12_spelling_irrelevant (s : St) (i : Nat) (k k' : Name) (h : fold k = fold k') :
     step s (.get i k) = step s (.get i k') ∧ step s (.getitem i k) = step s (.getitem i k') ∧
     step s (.contains i k) = step s (.contains i k') ∧ step s (.del i k) = step s (.del i k') ∧
     step s (.pop i k) = step s (.pop i k') ∧ step s (.popd i k) = step s (.popd i k') ∧
+    (∀ d, step s (.getd i k d) = step s (.getd i k' d)) ∧ (∀ d, step s (.popdv i k d) = step s (.popdv i k' d)) ∧
     (∀ r, step s (.lookup i k r) = step s (.lookup i k' r)) ∧ (∀ hd, step s (.set i k hd) = step s (.set i k' hd)) := by
   simp only [step, lookup, h]
-  exact ⟨trivial, trivial, trivial, trivial, trivial, trivial, fun _ => trivial, fun _ => trivial⟩
+  exact ⟨trivial, trivial, trivial, trivial, trivial, trivial, fun _ => trivial, fun _ => trivial, fun _ => trivial, fun _ => trivial⟩
 
 /-- in the by-value model `step`, mutating a handle (`attrs.tag = c`) never changes what any scope maps any name to
 (true by construction of that model; the identity-level statement is `C12_copies_independent` below) -/
@@ -176,5 +202,8 @@ example : (run St.init
 example : fold ['a', 'B', 'c', '(', '1', ')'] = ['a', 'b', 'c'] := by decide
 example : (drun .dflt [] [.set ['K'] 1, .getitem ['z'], .setdefault ['k'] 2, .pop ['K'], .contains ['k']]).2 =
     [.unit, .val 0, .val 1, .val 1, .bool false] := by decide
+/-- a stored falsy value (`0`) is returned by `get` with an explicit default; the default only for the absent key -/
+example : (drun .ordered [] [.set ['M', 'a', 'x'] 0, .getd ['M', 'A', 'X'] 5, .getd ['m', 'i', 'n'] 5, .popdv ['m', 'a', 'x'] 7]).2 =
+    [.unit, .val 0, .val 5, .val 0] := by decide
 
 end LokiModel.C12
